@@ -32,6 +32,9 @@ def block_configs(tier):
         for n in (1, 2, 3, 4):
             if start + n <= 65536:
                 out.append(('seq', start, tuple(100 + i for i in range(n))))
+    # tables that start out as booleans (how coil tables are usually declared) hold whatever is written to them
+    out.append(('seq', 0, (False, True, False)))
+    out.append(('seq', 5, (True, False)))
     keys = [0, 1, 2, 3, 5]
     for r in range(1, len(keys) + 1):
         for sub in itertools.combinations(keys, r):
